@@ -279,6 +279,21 @@ def x_history(ctx, case):
                     ctx.check(outcome == "addSkip", "skip-reported-as-skip", detail)
         if any(_nontrivial(prog)):
             nontrivial = True
+        if prog.get("rerun") and m["kind"] == "ok" and propagated is None:
+            # the same instance run again on the same reactor: same stages, same outcome, still clean
+            first = ([n for n, _ in entered], outcome)
+            del stagelog[:]
+            log2 = recorders.Log()
+            try:
+                the_case.run(recorders.ExtRecorder(log2))
+            except BaseException as e:  # noqa
+                propagated = e
+            core2 = [n for n in log2.names() if n in recorders.OUTCOMES]
+            second = ([n for k2, n, t in stagelog if k2 == "enter"], core2[0] if len(core2) == 1 else core2)
+            ctx.check(first == second and not reactor.getDelayedCalls() and observers() == obs_before,
+                      "rerun.same-stages-and-outcome",
+                      lambda: {"first": first, "second": second, "propagated": repr(propagated),
+                               "pending": [str(c) for c in reactor.getDelayedCalls()], "prog": prog})
         # keep the process-global error observer clean for the next program, as a user would
         leftover = flush_logged_errors()
         ctx.check(not leftover, "after.no-logged-error-left-for-the-next-test",
@@ -445,6 +460,8 @@ def run(ctx):
                          for _ in range(rng.randint(0, 3))]
         if rng.random() < 0.25:
             p["stop_at"] = rng.choice([0.1, 0.3, 0.6, 0.9, 1.1, 1.7, 2.3, 5.0])
+        elif rng.random() < 0.3:
+            p["rerun"] = True
         return p
     for i in range(ctx.scale(2500, 200000)):
         if ctx.out_of_time():
